@@ -58,8 +58,10 @@ def to_dict(o):
     return np.asarray(o)
 
 
-# boundary-biased seeds: 0 (falsy), tiny and arbitrary ones
-SEEDS = st.one_of(st.just(0), st.integers(0, 3), st.integers(0, 2**31 - 1))
+# boundary-biased seeds: 0 (falsy), tiny and arbitrary ones, and the upper half of the uint32 range that
+# jax.random.PRNGKey accepts (the sign bit of an int32 set: 2**31 .. 2**32 - 1, boundaries favoured)
+SEEDS = st.one_of(st.just(0), st.integers(0, 3), st.integers(0, 2**31 - 1),
+                  st.sampled_from([2**31 - 1, 2**31, 2**31 + 5, 2**32 - 1]), st.integers(2**31, 2**32 - 1))
 
 
 @st.composite
